@@ -252,7 +252,34 @@ PROPS["C08"] = {"rule": GRAMMAR_RULE, "trusted_base": GRAMMAR_TB, "assumptions":
     "a line is a text without line feed (what the code does otherwise -- it panics -- is recorded and covered by the correspondence, not part of the property)",
 ]}
 
+UPDATE_TB = [
+    KERNEL,
+    "the theorem statements in lean/ScrutModel/Props/C10.lean (vocabulary: lean/ScrutModel/Model/UpdateSpec.lean, relation Rewritten) being a faithful reading of the property",
+    CORR,
+    "hand-written model lean/ScrutModel/Model/Update.lean of MarkdownUpdateGenerator::generate_update (src/generators/markdown.rs:41-115, max_backtick_size 175-188) on top of the tokenizer model lean/ScrutModel/Model/Markdown.lean (C06), tied to the code by behavioural correspondence only",
+    "the text Outcome::generate_testcase returns per outcome is a parameter of the model (any text, or failure): the theorems hold for every generator; the harness obtains it per outcome from the real code through the public MarkdownTestCaseGenerator, which wraps exactly that text into a fence (C09 is about its content)",
+    "src/bin/commands/update.rs (running the tests, building outcomes, keeping detached tests, writing the file) is not modelled",
+    RUSTC,
+]
+UPDATE_RULE = (
+    "(1) every document of at most 4 (thorough 5) lines over a 12-line alphabet that hits every branch of the tokenizer and of the block writer (`---`, scrut fences of 3 and 4 backticks with and without configuration, blank and spaced configuration, bare fences, foreign fence, comment, command, output, blank line), each with two of six outcome lists (pass, changed output, changed exit code, kept quantifiers, output with backtick lines and without final newline, output that looks like Markdown, timeout = generator failure, no outcomes, too few / too many outcomes); "
+    "(2) seeded random documents of up to 14 lines over that alphabet plus 14 malformed neighbours (`--- `, ` ---`, five backticks, text after the configuration, non-ASCII before a fence, NBSP in the info string, `~~~`, `> y`, `[1]`, TAB, two backticks), with LF, CRLF, mixed, `\\r\\r\\n`, missing final terminator or a final bare CR, and random outcome lists; "
+    "(3) generated well-formed documents (prose, front-matter, foreign blocks, unterminated foreign block, scrut blocks with glob/regex/optional expectations, configuration, comments, 3/4 backticks, CRLF) whose outcomes come from the real parser and the real validate on perturbed outputs; (4) the fixed witness of the open finding. "
+    "Per case: the real generate_update vs the model on the same document and the texts generated per outcome (whole updated document, byte for byte, or the canonical error); direct oracles on the real code: reference reading of the document written from the documentation (lines outside scrut blocks equal before/after, block count, language, configuration, comment lines, every block closed), update twice with the same outcomes gives the same bytes, no outcomes = untouched, errors only for missing/unrenderable outcomes; for (3) also re-parse: same commands, same configuration, passing tests keep their expectations, second update with re-validated outcomes. "
+    "non-trivial = at least one scrut block and at least one outcome; distinct = distinct model op line"
+)
+PROPS["C10"] = {"rule": UPDATE_RULE, "trusted_base": UPDATE_TB, "assumptions": [
+    "the Lean model is tied to the Rust code by differential execution, not by translation",
+    "that the updated document is tokenized back into tokens with the same texts (hypothesis AllSame of C10_idempotent_partial) and that it parses to the same commands are decided by the direct oracles on the generated cases, not proved",
+]}
+
 MANIFEST_TEXT = {
+    "C10": {
+        "text": "Machine-checked (Lean 4) for all documents, malformed included, all language lists and all generated texts: without outcomes the document is returned byte for byte (C10_no_outcomes_untouched); update never panics and fails only for a missing or unrenderable outcome (C10_fails_only_for_outcomes); the updated text arises from the lines of the document by the rules of the relation Rewritten: every line outside scrut blocks (prose, front-matter, foreign blocks, unterminated constructs, everything after the last test) is written back as it is, in order, LF-terminated, nothing dropped or truncated, every scrut block replaced by exactly one closed block (C10_outside_preserved; strict form under the guard 'front-matter has a line and is closed': C10_outside_preserved_partial); a rewritten block keeps language, inline configuration (white space after `{` dropped) and the comment lines, a block without code keeps all lines and uses no outcome (C10_blocks_kept); a block rewritten from its own code lines is reproduced line for line (C10_passing_verbatim); a second update that reads back the same texts and gets the same generated texts writes the same document (C10_idempotent_partial). PARTIAL: deviations proved on closed witnesses and reported by the oracle: empty front-matter gains a blank line, unterminated front-matter gains `---` (C10_front_matter_*_fails_on_witness), `{  }` becomes `{}` then disappears and `\\r\\r\\n` loses one CR per update (C10_not_idempotent_*_witness); re-tokenization of the updated document and 'same commands' are decided by oracles only. Tie to code: exhaustive documents up to 4 lines over a 12-line branch alphabet x outcome lists, random malformed documents with all line-ending styles, generated well-formed documents with real parse/validate; the model reproduces the whole updated document byte for byte.",
+        "design_ref": "DESIGN.md §6 C10",
+        "note": "Trusted: Lean kernel + 3 standard axioms, the correspondence harness, statement reading. generate_testcase is a parameter (C09). Open finding C10:not-idempotent-retained-quantified-expectations (same root cause as C09:update-retained-quantified-expectations). Line terminators are normalised to LF and a final terminator is added (stated normalisation). Repaired earlier by fix: 41f3a85, 7028fbe, 9832a4c.",
+        "technique": "Lean 4 theorems on an executable model of generate_update over the C06 tokenizer model + differential correspondence (exhaustive small scope, random malformed, generated well-formed) + direct oracles",
+    },
     "C08": {
         "text": "Machine-checked (Lean 4, all lines without line feed, any \\s class, any rule constructors, any escaper): parse never panics and never reports an unknown kind; it fails only with the error of the escaped/glob/regex constructor on the expression in front of a final modifier (C08_total); the recognised modifier is exactly the documented final ` (<kind><quantifier>)` with everything before the white-space character verbatim (C08_grammar: Modifier <-> modifierOf, C08_extract, C08_modifier_parse incl. ?/*/+ flags), the decomposition is unique (C08_modifier_unique, C08_suffix_unique) and every other line incl. `foo ()` is equal for the whole line (C08_otherwise_equal). Round trip: for every expectation of every kind parse(to_expression_string e) gives e back with the same quantifier (equal with unprintable content as escaped) exactly when the rule constructor reproduces the expression from the rendered text (C08_roundtrip, C08_roundtrip_iff, C08_parse_render, C08_roundtrip_matches); no guard on the text's shape is left because ends_like_modifier over-approximates the grammar (C08_ends_like_modifier_sound; regression example C08_roundtrip_equal_modifier_shaped). PARTIAL in that the constructor contract is a hypothesis (subject of C04/C11) and is false in two known situations, both open findings: regex/no-eol expressions with unprintable characters, displayed through the escaper (decidable guard has_unprintable = false: C08_roundtrip_noEol_guarded, C08_roundtrip_noEol_iff, C08_roundtrip_fails_on_escaped_pattern_witness), and the ` (no-eol)` strip of the escaped constructor (C08_roundtrip_fails_on_witness). Tie to code: exhaustive token-alphabet lines, structured nested suffixes, random lines through the real parse/render/parse under both escapers; backwards-scanner oracle.",
         "design_ref": "DESIGN.md §6 C08",
@@ -364,7 +391,7 @@ MANIFEST_TEXT = {
 }
 
 # properties whose machinery is merged but being brought up to date with fix commits: not claimed yet
-PENDING = set()
+PENDING = {"C10"}
 
 WIP = "not yet claimed: model, theorems and correspondence for this property are still being built (see DESIGN.md §11); nothing is asserted about it"
 NOT_APPLICABLE = [{"property_id": "C%02d" % i, "reason": WIP} for i in range(1, 21) if "C%02d" % i not in PROPS or "C%02d" % i in PENDING]
